@@ -360,7 +360,7 @@ class _:
     # replaces the small operand by a sticky bit.  Its correctness is the sticky lemma; the
     # verifier does not decide it, so this sub-case is a bounded stand-in (see bounded.py).
     gaps = [dict(name='far-exponent sticky shortcut', clauses=['value'],
-                 cond=lambda s, t, prec: FarApart(s, t, prec))]
+                 cond=lambda s, t, prec: FarApart(s, t, prec), gen='add_gap_inputs')]
 
     ghost = {
         ('tsign ^= _sub', 0, 'after'): ['split ssign 0 1', 'split tsign 0 1'],
@@ -533,6 +533,55 @@ class _:
     def ensures_value(s, t, prec, rnd, result):
         return QuotSpec(result, s, t, prec, rnd)
 
+    # General quotients (divisor mantissa != 1): the code rounds 2*floor(N/D)+1 (a sticky bit);
+    # that this rounds like N/D itself is the sticky lemma, which the verifier does not decide
+    # (attempted with product/cancellation hints: z3 and cvc5 time out).  Bounded stand-in.
+    gaps = [dict(name='general quotient (sticky remainder bit)', clauses=['value'],
+                 cond=lambda s, t: s[1] != 0 and t[1] != 0 and t[1] != 1,
+                 gen='div_inputs')]
+
     ghost = {
         ('tsign, tman, texp, tbc = t', 0, 'after'): ['split ssign 0 1', 'split tsign 0 1'],
     }
+
+
+@contract(M + 'mpf_rdiv_int')
+class _:
+    shapes = dict(n='int', t='mpf', prec='int')
+    result = 'mpf'
+    props = dict(wf=['C01'], bits=['C10'], value=['C02'])
+    all_props = ['C01', 'C02', 'C10']
+    raises = dict(ZeroDivisionError=lambda t: t == fzero)
+
+    def requires(n, t, prec, rnd):
+        return WF(t) and prec >= 1
+
+    def ensures_wf(n, t, prec, rnd, result):
+        return WF(result)
+
+    def ensures_bits(n, t, prec, rnd, result):
+        return special(result) or result[3] <= prec
+
+    def ensures_value(n, t, prec, rnd, result):
+        return RDivIntSpec(result, n, t, prec, rnd)
+
+    gaps = [dict(name='general quotient (sticky remainder bit)', clauses=['value'],
+                 cond=lambda n, t: n != 0 and t[1] != 0, gen='rdiv_inputs')]
+
+
+@contract(M + 'from_rational')
+class _:
+    shapes = dict(p='int', q='int', prec='int')
+    result = 'mpf'
+    props = dict(wf=['C01'], bits=['C10'])
+    all_props = ['C01', 'C02', 'C10']
+    raises = dict(ZeroDivisionError=lambda q: q == 0)
+
+    def requires(p, q, prec, rnd):
+        return prec >= 1
+
+    def ensures_wf(p, q, prec, rnd, result):
+        return WFfin(result)
+
+    def ensures_bits(p, q, prec, rnd, result):
+        return result[3] <= prec or result == fzero
